@@ -17,6 +17,7 @@ struct rsv_sched {
 	uint64_t noprogress;       /* steps without a trace event that count as a hang (DET) */
 	unsigned clock_div;        /* virtual microsecond = steps / clock_div */
 	unsigned free_perturb_per_1024; /* FREE: probability of a perturbation at a yield */
+	unsigned batch;            /* messages attempted between two GVT steps of a worker (0: the core's own constant, 64) */
 };
 
 #define RSV_MAXT 64
